@@ -187,7 +187,7 @@ static int worker(int argc, char **argv) {
     hx_emit_stat("transitions", (n_trans - shared_trans) + (first ? shared_trans : 0));
     hx_emit_stat("executions", (n_exec - shared_exec) + (first ? shared_exec : 0));
     hx_emit_stat("distinct_outcomes", (n_states + 1 - shared_states) + (first ? shared_states : 0));
-    hx_emit_stat("calls", n_calls);
+    hx_emit_stat("data_calls", n_calls);
     hx_emit_stat("callback_deviation_executions", n_dev_exec);
     return 0;
 }
